@@ -135,6 +135,14 @@ def cursor_model(ctx, fb, un, b):
                     isinstance(x, ast.Name) and x.id == name and isinstance(x.ctx, ast.Store) for x in ast.walk(loop)):
                 cur = name
     if buf is None:
+        # the buffer is the name the unpack site slices, when that name is what the packet's message area is set from
+        # (pkt.msg = payload; ... payload[pos:start]) - whichever branch bound it
+        a0 = un.args[0] if un.args else None
+        bname = a0.value.id if isinstance(a0, ast.Subscript) and isinstance(a0.value, ast.Name) else a0.id if isinstance(a0, ast.Name) else None
+        if bname is not None and any(isinstance(n, ast.Assign) and isinstance(n.targets[0], ast.Attribute) and n.targets[0].attr == "msg" and isinstance(n.value, ast.Name)
+                                     and n.value.id == bname for n in walk_own(fb.node)):
+            buf = bname
+    if buf is None:
         return None
     used_cur = cur is not None and any(isinstance(x, ast.Name) and x.id == cur for x in ast.walk(loop))
     ints = {}
